@@ -129,6 +129,38 @@ func callLookup(g storage.Graph, c LookupCall, lo *storage.LookupOptions) lookup
 }
 
 func callLookupWith(bg context.Context, g storage.Graph, c LookupCall, lo *storage.LookupOptions) (res lookupResult) {
+	return callLookupCap(bg, g, c, lo, lookupChanCap)
+}
+
+// callLookupCancelled starts the lookup with a result channel of capacity k and nobody
+// reading, lets it run until it has delivered k elements (or finished), cancels the context
+// and then drains. What the cancelled lookup delivered is not examined; ok=false means the
+// call did not return within the bound after the cancellation.
+func callLookupCancelled(g storage.Graph, c LookupCall, lo *storage.LookupOptions, k int) (ok bool) {
+	ctx, cancel := context.WithCancel(context.Background())
+	defer cancel()
+	done := make(chan struct{})
+	go func() {
+		defer close(done)
+		callLookupCap(ctx, g, c, lo, k)
+	}()
+	select {
+	case <-done:
+		return true
+	case <-time.After(3 * time.Millisecond):
+	}
+	cancel()
+	select {
+	case <-done:
+		return true
+	case <-time.After(20 * time.Second):
+		return false
+	}
+}
+
+// callLookupCap is callLookupWith with a result channel of the given capacity (the call
+// blocks once the channel is full: only for callers that cancel the context).
+func callLookupCap(bg context.Context, g storage.Graph, c LookupCall, lo *storage.LookupOptions, lookupChanCap int) (res lookupResult) {
 	var s *node.Node
 	var p *predicate.Predicate
 	var o *triple.Object
